@@ -8,13 +8,13 @@ import random
 from . import common
 from .common import MachineryError
 
-ALL_ACTS = ["set", "del", "pop", "get", "clear", "update", "copy", "deepcopy", "index", "slice", "ocopy", "to", "sortkey", "sortidx",
+ALL_ACTS = ["set", "del", "pop", "get", "clear", "update", "copy", "deepcopy", "index", "slice", "ocopy", "to", "vset", "sortkey", "sortidx",
             "iop", "eq", "dsset", "dsdel", "dspop", "dsget", "dsmeta", "dsclear", "dsupdate", "dscopy", "dsdeepcopy"]
 FOCUS = {
     "dict": ["set", "del", "pop", "get", "clear", "update", "copy", "eq", "dsset", "dsdel", "dspop", "dsget", "dsmeta", "dsclear",
              "dsupdate", "dscopy", "dsdeepcopy"],
-    "rows": ["set", "del", "pop", "update", "index", "sortkey", "sortidx", "clear"],
-    "alias": ["set", "copy", "deepcopy", "slice", "ocopy", "to", "iop", "dsset", "dscopy"],
+    "rows": ["set", "del", "pop", "update", "index", "sortkey", "sortidx", "clear", "vset"],
+    "alias": ["set", "copy", "deepcopy", "slice", "ocopy", "to", "vset", "iop", "dsset", "dscopy"],
 }
 IDX_ALL = ["i0", "im1", "iout", "s02", "s_2", "srev", "s1_", "mask", "maskArr", "maskBad", "maskNone", "ia", "iaArr", "perm", "faArr", "vecIdx"]
 INVARIANTS = ["Aligned", "KeysConsistent", "HeapOk", "OneRowSelection"]
